@@ -44,7 +44,7 @@ impl Prop for C11 {
         true
     }
     fn rule(&self) -> String {
-        "cases = one handshake response in 4.1 or 3.20 layout with a random 32-bit (16-bit) capability mask, a user name of arbitrary non-NUL bytes (empty, non-UTF-8, up to 600 bytes, occasionally ~64 KiB), arbitrary reserved bytes (all zero, MariaDB-style extended capabilities in the last four, or 23 random bytes), random trailing auth/db/plugin bytes (occasionally ~64 KiB, up to 200 KB, or enough to make the response a multi-fragment message of >= 2^24-1 bytes) and a response sequence id (1 mostly, else 0-255), against a shim with or without a TLS configuration (the SSL bit is only requested when TLS is *not* configured; the configured case is C18) that accepts or rejects with a tagged error, with 0-5 commands already pipelined behind the handshake, under a generated chunk schedule. Oracle: first server packet parses as a protocol-10 greeting (own decoder + mysql_common::HandshakePacket) with PROTOCOL_41 set, the SSL bit set iff TLS is configured, sequence id 0 and flushed before the first read; after_authentication is called exactly once, before any command callback, with exactly the user name sent; accept => OK with id+1 and all pipelined commands served; reject => ERR 1045/28000, run_on returns the very error the shim returned and no command callback runs; SSL requested without configuration => Err and no after_authentication. Non-trivial = non-default mask/user/layout, or pipelined commands with a rejection.".into()
+        "cases = one handshake response in 4.1 or 3.20 layout with a random 32-bit (16-bit) capability mask, a user name of arbitrary non-NUL bytes (empty, non-UTF-8, up to 600 bytes, occasionally ~64 KiB), arbitrary reserved bytes (all zero, MariaDB-style extended capabilities in the last four, or 23 random bytes), random trailing auth/db/plugin bytes (occasionally ~64 KiB, up to 200 KB, or enough to make the response a multi-fragment message of >= 2^24-1 bytes) and a response sequence id (1 mostly, else 0-255), against a shim with or without a TLS configuration (the SSL bit is only requested when TLS is *not* configured; the configured case is C18) that accepts or rejects with a tagged error, with 0-5 commands already pipelined behind the handshake, under a generated chunk schedule. Oracle: first server packet parses as a protocol-10 greeting (own decoder + mysql_common::HandshakePacket) with PROTOCOL_41 set, the SSL bit set iff TLS is configured, sequence id 0 and flushed before the first read; after_authentication is called exactly once, before any command callback, with exactly the user name sent; accept => OK with id+1 and all pipelined commands served; reject => ERR 1045/28000, run_on returns the very error the shim returned and no command callback runs; SSL requested without configuration => Err and no after_authentication. 1 case in 12 has the peer go away instead (all transport operations fail from the k-th on, k <= 6): nothing is asked of that connection here, but the one served next on the same thread has to start with its greeting like any other. Non-trivial = non-default mask/user/layout, or pipelined commands with a rejection, or a peer that went away.".into()
     }
     fn cases(&self, tier: Tier) -> u64 {
         tier.pick(400000, 3000000)
@@ -104,6 +104,13 @@ impl Prop for C11 {
         }
         let (len, ends, _) = client_stream_meta(&conv);
         conv.sched = gen_schedule(g, len, &ends);
+        if g.chance(1, 12) {
+            // the peer goes away while the connection is being set up (or shortly after): every
+            // transport operation from the k-th on fails.  What this connection does is then C04's and
+            // C19's business; here it is the *next* connection that has to get its greeting.
+            conv.fault = Fault::ErrFrom(g.usize_in(0, 6));
+            conv.fault_kind = g.below(5) as u8;
+        }
         Case { conv, tls_configured }
     }
     fn fixed(&self, _tier: Tier) -> Vec<Case> {
@@ -156,6 +163,11 @@ impl Prop for C11 {
         }
         if let RunResult::Panic(p) = &o.result {
             ex.fail(format!("c11-panic|{}", panic_signature(p)), format!("run_on panicked: {}", o.result.brief()));
+            return ex;
+        }
+        if c.fault != Fault::None {
+            ex.class("peer-gone-during-setup(next-connection-checked)");
+            ex.nontrivial = true;
             return ex;
         }
         // greeting
